@@ -53,7 +53,8 @@ FLOORS = {"argument_snapshot": 3000, "probe_compared": 250,
           "history_call": 1500, "returned_object_mutated": 300}
 SHARDS = {"quick": 16, "thorough": 64}
 TIMEOUT = {"quick": 900, "thorough": 6 * 3600}
-FAMILIES = ["place", "chain", "minimise", "bitfield", "objects", "route"]
+FAMILIES = ["place", "chain", "minimise", "bitfield", "objects", "route",
+            "minimise_related"]
 
 
 def plan(tier):
@@ -89,13 +90,56 @@ def gen_call(family, rng, tier):
     return ("objects", rng.randrange(1 << 30))
 
 
+def related_tables(rng):
+    """(T1, T2): minimising T1 merges two entries into a cube that covers
+    more keys than they did; T2 contains that very cube (as a table that was
+    minimised earlier and then extended would) next to entries of another
+    route whose merge may cover some of the cube's surplus keys.  Any state
+    kept between the two calls changes what the second one may merge."""
+    k = rng.randint(3, 6)
+    pos = sorted(rng.sample(range(32), k))
+    full = c04.spread((1 << k) - 1, pos)
+    fixed_mask = (rng.getrandbits(32) & ~full) if rng.random() < .5 else 0
+    fixed_key = rng.getrandbits(32) & fixed_mask
+    a = rng.getrandbits(k)
+    b = a
+    while bin(a ^ b).count("1") < 2:
+        b = rng.getrandbits(k)
+    s_route = [rng.randrange(6)]
+    n_route = [6 + rng.randrange(18)]
+    ka, kb = c04.spread(a, pos) | fixed_key, c04.spread(b, pos) | fixed_key
+    m = full | fixed_mask
+    t1 = dict(pos=pos, fixed_key=fixed_key, mode="orth",
+              entries=[(s_route, ka, m, [None]), (s_route, kb, m, [None])])
+    cube_mask = m & ~c04.spread(a ^ b, pos)
+    cube_key = ka & cube_mask
+    others = [v for v in range(1 << k) if (c04.spread(v, pos) | fixed_key) &
+              cube_mask != cube_key]
+    # prefer keys next to the cube's surplus keys
+    rng.shuffle(others)
+    ent = [(s_route, cube_key, cube_mask, [None])]
+    for v in others[:rng.randint(2, 5)]:
+        ent.append((n_route, c04.spread(v, pos) | fixed_key, m, [None]))
+    ent.sort(key=lambda e: bin(~e[1] & ~e[2] & 0xffffffff).count("1"))
+    t2 = dict(pos=pos, fixed_key=fixed_key, mode="ordered", entries=ent)
+    return t1, t2
+
+
 def gen(cls, idx, rng, tier):
     history = []
+    fams = [f for f in FAMILIES if f != "minimise_related"]
     for _ in range(rng.randint(3, 15)):
-        fam = cls if rng.random() < .4 else rng.choice(FAMILIES)
+        fam = cls if rng.random() < .4 and cls in fams else rng.choice(fams)
         history.append((gen_call(fam, rng, tier), rng.random() < .6))
-    return dict(history=history, probe=gen_call(cls, rng, tier),
-                seed=rng.randrange(1 << 30))
+    if cls == "minimise_related":
+        t1, t2 = related_tables(rng)
+        fn = rng.choice(["oc", "mt"])
+        history.insert(rng.randrange(len(history) + 1),
+                       (("minimise", t1, fn, None), rng.random() < .5))
+        probe = ("minimise", t2, rng.choice(["oc", "mt"]), None)
+    else:
+        probe = gen_call(cls, rng, tier)
+    return dict(history=history, probe=probe, seed=rng.randrange(1 << 30))
 
 
 # -------------------------------------------------------------- snapshots
